@@ -167,6 +167,13 @@ def check_C01(chk):
     drv = setup(chk, ["Properties_C01.v"])
     n = 12 if chk.tier == "quick" else 250
     cases = corner_cases() + gen_cases(chk, n)
+    # a failing, a dying and an exiting test registered BEFORE a sub-suite of the same suite, at two depths
+    for bad in ([("c", 0)], [("c", 1), ("die", "sig", 11)], [("die", "exit", 3)]):
+        for rep in (L.REPORTERS if chk.tier == "thorough" else [chk.rng.choice(L.REPORTERS)]):
+            inner = L.Suite(1, children=[L.Test(1, body=[("c", 1)])])
+            cases.append((L.Suite(0, children=[L.Test(0, body=list(bad)), inner, L.Test(2, body=[("c", 1)])]), rep, "forked"))
+            deep = L.Suite(2, children=[L.Test(0, body=list(bad)), L.Suite(3, children=[L.Test(1, body=[("c", 1)])])])
+            cases.append((L.Suite(0, children=[L.Suite(1, children=[deep]), L.Test(2, body=[("c", 1)])]), rep, "forked"))
     # single-test mode on a few trees
     for i in range(4 if chk.tier == "quick" else 60):
         root = gen_c.gen_tree(chk.rng, max_depth=2)
@@ -341,7 +348,7 @@ def check_C17(chk):
         obs = {}
         for rep in L.REPORTERS:
             run = L.run_impl(drv, root, rep, "twice")
-            m = vlib.run_model("runner", ["(twice %s forked 4096 %s)" % (rep, L.node_sexp(root))])[0].split()
+            m = vlib.run_model("runner", ["(twice %s forked 4096 %s)" % (rep, L.node_sexp(root))])[0].split("|")[0].split()
             chk.case(("twice", L.node_sexp(root), rep))
             chk.count("mode:twice")
             chk.cov["disagreements_checked"] += 1
@@ -536,6 +543,25 @@ def check_C04(chk):
                 chk.violation(sig0 or "order-dependent", "test %s credited %s in order %s but %s in order %s" % (
                     name, delta, order, seen[key][0], seen[key][1]), replay_of(root, rep, mode, {"stdout": run.stdout[-2000:]}))
             seen.setdefault(key, (delta, order))
+    # one fork() of the run fails: whatever the runner does then (it aborts the run), no test that is
+    # still reported may see what another test did to the program's memory
+    build = vlib.build_repo("hooks")
+    shim = vlib.build_driver("faultshim", build, shared=True, libs=("-ldl",))
+    T = L.Test
+    for order in ([0, 1, 2], [2, 0, 1], [1, 2, 0]):
+        tests = [T(0, body=[("poke", 7), ("c", 1)]), T(1, body=[("peek", 0), ("figscheck", 8)]), T(2, body=[("figs", 3), ("mode", "loose"), ("poke", 9)])]
+        root = L.Suite(0, children=[tests[i] for i in order])
+        mr = L.ModelResult(vlib.run_model("runner", [L.model_case(root, "text", "forked")])[0])
+        for k in (1, 2, 3):
+            run = L.run_impl(drv, root, "text", "forked", env_extra={"LD_PRELOAD": shim, "VERIF_FAULT": "fork:%d" % k})
+            chk.case(("fork-fault", tuple(order), k))
+            chk.count("fork-fault")
+            rp = replay_of(root, "text", "forked", {"fault": "fork:%d" % k, "exit": run.exit, "stdout": run.stdout[-1200:],
+                                                     "how": "VERIF_FAULT=fork:%d LD_PRELOAD=_work/bin-hooks/faultshim.so _work/bin-hooks/scn_driver <scenario>" % k})
+            for name, delta in L.log_tdone(run):
+                if delta != mr.own[name]:
+                    chk.violation("depends-on-others-after-fork-failure", "fork() number %d failed; test %s is then credited %s, alone it yields %s (registration order %s)" % (
+                        k, name, delta, mr.own[name], [t.name for s_, t in root.tests()]), rp)
     return chk.finish()
 
 
@@ -620,6 +646,32 @@ def check_C13(chk):
                             chk.violation("messages-differ", "test %s: messages %s in mode %s but %s in mode %s" % (
                                 name, base[2].get(name, []), base[0], msgs.get(name, []), mode),
                                 replay_of(root, rep, mode, {"stdout": run.stdout[-2500:]}))
+    # a run in the runner's own process, then a forked run with the same reporter object: what the first
+    # run's tests did to the framework state (figures, mock mode, expectations) must not reach the second
+    T = L.Test
+    for k, figs in enumerate([3, 12, 2] if chk.tier == "quick" else [1, 2, 3, 5, 7, 9, 12, 15]):
+        # the disturbing test runs last, so what it leaves behind is what the runner's process holds
+        # when the second run starts
+        root = L.Suite(0, children=[T(0, body=[("figscheck", 7), ("figscheck", 8), ("calle",)]),
+                                    T(1, body=[("c", 1), ("figscheck", figs), ("figscheck", 7)]),
+                                    T(2, body=[("figscheck", 7), ("mode", "loose"), ("expect",), ("expect",), ("figs", figs)])])
+        for rep in (["text", "cute"] if k == 0 else ["text"]):
+            run = L.run_impl(drv, root, rep, "inproc-forked")
+            m = vlib.run_model("runner", ["(twice %s inproc-forked 4096 %s)" % (rep, L.node_sexp(root))])[0]
+            chk.case(("inproc-forked", figs, rep))
+            chk.count("mode:inproc-then-forked")
+            chk.cov["disagreements_checked"] += 1
+            rp = replay_of(root, rep, "forked", {"scenario": L.scn_text(root, rep, "inproc-forked", "events.log"), "stdout": run.stdout[-1500:]})
+            td = L.log_tdone(run)
+            second = td[len(td) // 2:]
+            want = [("t%s" % x.split()[0], tuple(map(int, x.split()[1:5]))) for x in m.split("|")[1].split(";") if x][len(td) // 2:] if "|" in m else None
+            if want is not None and second != want:
+                chk.disagreement("in-process run then forked run: second run credits %s, model %s" % (second, want), rp)
+            mr = L.ModelResult(vlib.run_model("runner", [L.model_case(root, rep, "forked")])[0])
+            for name, delta in second:
+                if delta != mr.own[name]:
+                    chk.violation("second-run-affected", "after an in-process run that set %d significant figures, the forked run credits %s %s; its own results are %s" % (
+                        figs, name, delta, mr.own[name]), rp)
     return chk.finish()
 
 
